@@ -224,8 +224,11 @@ pub fn serialize(root: &Node, rws: &[Rw], expanded_by_default: &[&str]) -> Strin
                 // SAFETY: pointers come from the borrowed tree and are used within this call only
                 let n = unsafe { &*ptr };
                 for (k, v) in &n.attrs {
-                    if k.starts_with("xmlns:") && !hoisted.iter().any(|(hk, _)| hk == k) && root.attr(k).is_none() {
-                        hoisted.push((k.clone(), v.clone()));
+                    let Some(p) = k.strip_prefix("xmlns:") else { continue };
+                    // a prefix rewrite on the same element applies to the hoisted declaration as well
+                    let k = if rws.iter().any(|r| r.kind == Kind::AttrPrefix && r.pos == pos) { format!("xmlns:q{pos}{}", &p[..1]) } else { k.clone() };
+                    if !hoisted.iter().any(|(hk, _)| *hk == k) && root.attr(&k).is_none() {
+                        hoisted.push((k, v.clone()));
                     }
                 }
             }
